@@ -289,6 +289,11 @@ pub mod sim {
     })
   }
 
+  /// Id of the most recently created request.
+  pub fn last_req() -> usize {
+    SIM.with(|s| s.borrow().next_req)
+  }
+
   pub fn has_store(db: &str, store: &str) -> bool {
     SIM.with(|s| s.borrow().dbs.get(db).map(|d| d.contains_key(store)).unwrap_or(false))
   }
